@@ -4,4 +4,16 @@ MCFrameLen == [a |-> 60, b |-> 200]
 MCPorts == 1..3
 MCMissLens == {0, 128, 65535}
 MCMaxLens == {64, 65535}
+NoLists == {}
+MCListsPO == { <<"ctl">>, <<"table">>, <<"ctl", "rw", "out2">>, <<"rw", "ctl", "flood">>,
+               <<"table", "rw", "inport">>, <<"rw", "table">>, <<"ctl", "ctl">>, <<"out2", "rw", "out2">>,
+               <<"ctl", "table">> }
+MCListsFM == { <<"ctl">>, <<"ctl", "rw", "out2">>, <<"rw", "ctl", "flood">>, <<"ctl", "ctl">>,
+               <<"out2", "rw", "all">>, <<"inport", "ctl">> }
+\* reduced constants for the edge cover with lists
+LFrameLen == [b |-> 200]
+LPorts == 1..2
+LMissLens == {128}
+L2MissLens == {0, 128}
+LMaxLens == {64}
 ====
